@@ -11,8 +11,8 @@ Theorem fixpoint_full_parsed T O :
   forall t u ht b4 h2,
   let nfc := o_nfc O in
   url_init T O t = MOk u ->
-  (* the text had a scheme and an authority *)
-  u_scheme u <> [] -> u_sep u = true ->
+  (* the text had an authority ('//'), with or without a scheme *)
+  u_sep u = true ->
   (* NFC laws; decoded components are scalar-value strings; a parameter without value has a key *)
   nfc [] = [] -> (forall x, nfc (nfc x) = nfc x) -> (forall x, nfc x = [] -> x = []) ->
   all_scalar (nfc (u_user u)) = true -> all_scalar (nfc (u_pass u)) = true -> all_scalar (nfc (u_frag u)) = true ->
@@ -26,11 +26,14 @@ Theorem fixpoint_full_parsed T O :
   port_wf (u_port u) = true ->
   forall t1 u1, to_text T O true u = MOk t1 -> url_init T O t1 = MOk u1 -> to_text T O true u1 = MOk t1.
 Proof.
-  intros TOK t u ht b4 h2 nfc P NE SEP N0 IDEM NN Su Sp Sf Fr Fq HNE F6 M58 ENC HTNE HTC I4 DEC H2NE H2M ENC2 PV.
-  destruct (parsed_shape T O t u P) as [S1 S2]. specialize (S1 NE). destruct (S2 SEP) as [rest ER].
+  intros TOK t u ht b4 h2 nfc P SEP N0 IDEM NN Su Sp Sf Fr Fq HNE F6 M58 ENC HTNE HTC I4 DEC H2NE H2M ENC2 PV.
+  destruct (parsed_shape T O t u P) as [S1' S2]. destruct (S2 SEP) as [rest ER].
+  assert (S1 : forallb (not_in [58; 47; 63; 35]) (u_scheme u) = true).
+  { destruct (u_scheme u) as [|c0 cr] eqn:ES; [reflexivity|]. apply S1'. discriminate. }
+  clear S1'.
   destruct u as [scheme sep user pw fam host port path q frag]. cbn in *. subst path. cbn [tl] in Fr.
   apply (fixpoint_full_class T O TOK scheme sep user pw fam host port rest q frag ht b4 h2
-           NE S1 N0 IDEM NN Su Sp Sf Fr Fq HNE F6 M58 ENC HTNE HTC I4 DEC H2NE H2M ENC2 PV).
+           S1 N0 IDEM NN Su Sp Sf Fr Fq HNE F6 M58 ENC HTNE HTC I4 DEC H2NE H2M ENC2 PV).
 Qed.
 
 (* the same for minimal quoting, "whenever no decoded component contains a '%'" *)
@@ -39,7 +42,7 @@ Theorem fixpoint_min_parsed T O :
   forall t u b4,
   let nfc := o_nfc O in
   url_init T O t = MOk u ->
-  u_scheme u <> [] -> u_sep u = true ->
+  u_sep u = true ->
   nfc [] = [] -> (forall x, nfc (nfc x) = nfc x) -> (forall x, nfc x = [] -> x = []) ->
   all_scalar (nfc (u_user u)) = true -> all_scalar (nfc (u_pass u)) = true ->
   Forall nopct (tl (u_path u)) -> Forall pair_okm (u_query u) -> nopct (u_frag u) ->
@@ -48,9 +51,12 @@ Theorem fixpoint_min_parsed T O :
   port_wf (u_port u) = true ->
   forall m u1, to_text T O false u = MOk m -> url_init T O m = MOk u1 -> to_text T O false u1 = MOk m.
 Proof.
-  intros TOK DOK t u b4 nfc P NE SEP N0 IDEM NN Su Sp Fr Fq Sf HNE F6 HC I4 DEC PV.
-  destruct (parsed_shape T O t u P) as [S1 S2]. specialize (S1 NE). destruct (S2 SEP) as [rest ER].
+  intros TOK DOK t u b4 nfc P SEP N0 IDEM NN Su Sp Fr Fq Sf HNE F6 HC I4 DEC PV.
+  destruct (parsed_shape T O t u P) as [S1' S2]. destruct (S2 SEP) as [rest ER].
+  assert (S1 : forallb (not_in [58; 47; 63; 35]) (u_scheme u) = true).
+  { destruct (u_scheme u) as [|c0 cr] eqn:ES; [reflexivity|]. apply S1'. discriminate. }
+  clear S1'.
   destruct u as [scheme sep user pw fam host port path q frag]. cbn in *. subst path. cbn [tl] in Fr.
   apply (fixpoint_min_class T O TOK DOK scheme sep user pw fam host port rest q frag b4
-           NE S1 N0 IDEM NN Su Sp Fr Fq Sf HNE F6 HC I4 DEC PV).
+           S1 N0 IDEM NN Su Sp Fr Fq Sf HNE F6 HC I4 DEC PV).
 Qed.
